@@ -49,6 +49,9 @@ type SimExec struct {
 	MaxBytes uint64
 	// FinalScript: per SetFinal call, true = fail with an error.
 	FinalScript []bool
+	// Yield, when set, is called (no lock held) at the start of every call a node makes: the seam for slow callers
+	// (SpinJitter).
+	Yield func()
 	// stall, when non-nil, makes GetTxs wait until it is closed or the caller's context ends (a mempool query
 	// that hangs and honours its context)
 	stall chan struct{}
@@ -149,6 +152,9 @@ type NodeExec struct {
 var _ coreexecutor.Executor = (*NodeExec)(nil)
 
 func (n *NodeExec) alive() error {
+	if y := n.e.Yield; y != nil {
+		y()
+	}
 	if !n.fence.Alive(n.epoch) {
 		return ErrCrashed
 	}
